@@ -105,6 +105,8 @@ type c20Scenario struct {
 	// panic happens in a registered pre server filter instead of the dispatcher's method
 	// mode lifecycle: how the application's own tars.Run() ends (index into c20LifeKinds)
 	Life     int  `json:"life,omitempty"`
+	// Callers >= 2: that many goroutines call FlushLogger concurrently (modes forced, stress, late, rawonly)
+	Callers  int  `json:"callers,omitempty"`
 	Kind     int  `json:"kind,omitempty"`
 	InFilter bool `json:"in_filter,omitempty"`
 }
@@ -431,7 +433,7 @@ func c20RunScenario(sc c20Scenario) c20ChildOut {
 	if sc.JSON {
 		rogger.SetFormat(rogger.Json)
 	}
-	env := &c20Env{sc: &sc, recs: make([][]c20Rec, sc.G+1), next: make([]int, sc.G)}
+	env := &c20Env{sc: &sc, recs: make([][]c20Rec, sc.G+1+sc.Callers), next: make([]int, sc.G)}
 	if sc.Dir != "" {
 		f, err := os.OpenFile(filepath.Join(sc.Dir, "events.log"), os.O_WRONLY|os.O_CREATE|os.O_APPEND, 0o644)
 		if err != nil {
@@ -475,22 +477,55 @@ func c20RunScenario(sc c20Scenario) c20ChildOut {
 			}
 		}
 	}
-	flushK := func(base int) {
-		out.QLen = rogger.VerifQueueLen()
-		env.rec(flushSlot, base, 0, 0, 0)
+	var flushMu sync.Mutex
+	timerSeen := false
+	// one FlushLogger call of caller c (the caller id is the g field of the flush events)
+	flushAs := func(c, base int) {
+		ql := rogger.VerifQueueLen()
+		env.rec(flushSlot+c, base, c, 0, 0)
 		t0 := time.Now()
 		rogger.FlushLogger()
 		done := rogger.VerifFlushDone()
+		ms := float64(time.Since(t0)) / 1e6
+		flushMu.Lock()
 		if base == c20KFlushCall {
-			out.FlushMs = float64(time.Since(t0)) / 1e6
+			if c == 0 {
+				out.QLen = ql
+			}
+			// the duration reported is that of a call that returned on its timer if there is one (the shortest), else caller 0's
+			if !done && (!timerSeen || ms < out.FlushMs) {
+				out.FlushMs, timerSeen = ms, true
+			} else if done && !timerSeen && c == 0 {
+				out.FlushMs = ms
+			}
 		}
+		flushMu.Unlock()
 		if done {
-			env.rec(flushSlot, base+1, 0, 0, 0)
+			env.rec(flushSlot+c, base+1, c, 0, 0)
 		} else {
-			env.rec(flushSlot, base+2, 0, 0, 0)
+			env.rec(flushSlot+c, base+2, c, 0, 0)
 		}
 	}
-	flush := func() { flushK(c20KFlushCall) }
+	flushK := func(base int) { flushAs(0, base) }
+	// flush: one caller, or sc.Callers concurrent callers a few dozen microseconds apart
+	flush := func() {
+		if sc.Callers < 2 {
+			flushK(c20KFlushCall)
+			return
+		}
+		var fw sync.WaitGroup
+		for c := 0; c < sc.Callers; c++ {
+			fw.Add(1)
+			go func(c int) {
+				defer fw.Done()
+				if d := (sc.Seed >> uint(4*c)) % 8; d > 0 {
+					time.Sleep(time.Duration(d*25) * time.Microsecond)
+				}
+				flushAs(c, c20KFlushCall)
+			}(c)
+		}
+		fw.Wait()
+	}
 	var wg sync.WaitGroup
 	switch sc.Mode {
 	case "forced":
@@ -827,7 +862,7 @@ func c20Monitor(evs [][4]int, flushMs, timeoutMs float64, smallBacklog bool) []F
 	var retOrder []c20Key // returned entries in order of return
 	head := 0
 	flushCall, flushRet, flush2Call := -1, -1, -1
-	flushDone := false
+	flushDone, timerRet := false, false
 	for i, e := range evs {
 		k := c20Key{e[1], e[2]}
 		switch e[0] {
@@ -879,11 +914,17 @@ func c20Monitor(evs [][4]int, flushMs, timeoutMs float64, smallBacklog bool) []F
 				}
 				break // retOrder is ascending in ret: the first unwritten one is the oldest
 			}
-		case c20KFlushCall:
-			flushCall = i
-		case c20KFlushRetDone, c20KFlushRetTimer:
-			flushRet = i
-			flushDone = e[0] == c20KFlushRetDone
+		case c20KFlushCall: // the first call of any caller counts: what returned before it is owed by every acknowledged return
+			if flushCall < 0 {
+				flushCall = i
+			}
+		case c20KFlushRetDone:
+			if flushRet < 0 {
+				flushRet = i
+			}
+			flushDone = true
+		case c20KFlushRetTimer:
+			timerRet = true
 		case c20KFlush2Call:
 			flush2Call = i
 		case c20KFlush2RetDone:
@@ -921,7 +962,7 @@ func c20Monitor(evs [][4]int, flushMs, timeoutMs float64, smallBacklog bool) []F
 			add("C20/flush/entry-not-written", fmt.Sprintf("FlushLogger returned after the flusher's acknowledgement, but %d entr(ies) whose logging call had returned before FlushLogger was called were not handed to their writer by then (%d never, %d later); first: g=%d n=%d", lost+late, lost, late, first.g, first.n))
 		}
 	}
-	if flushRet >= 0 && !flushDone {
+	if timerRet {
 		if flushMs < timeoutMs-100 {
 			add("C20/flush/returned-early", fmt.Sprintf("FlushLogger returned after %.1f ms without the flusher's acknowledgement and before its time limit of %.0f ms", flushMs, timeoutMs))
 		} else if smallBacklog {
@@ -1229,6 +1270,9 @@ func c20Gen(tier string, rng *rand.Rand) []c20Case {
 			sc.N = rng.Intn(10)
 			sc.LastN = 1 + rng.Intn(5)
 		}
+		if (mode == "forced" || mode == "stress" || mode == "late" || mode == "rawonly") && rng.Intn(4) == 0 {
+			sc.Callers = 2 + rng.Intn(3) // concurrent FlushLogger callers
+		}
 		if c20ExitMode(mode) { // every kind of panic value at every place, in turn
 			sc.Kind = kindNo[mode] % len(c20PanicKinds)
 			kindNo[mode]++
@@ -1284,10 +1328,10 @@ func c20SelfTests(cs []c20Case, fails [][]Failure) {
 func c20DropWrite(evs [][4]int) [][4]int {
 	fc, fr := -1, -1
 	for i, e := range evs {
-		if e[0] == c20KFlushCall {
+		if e[0] == c20KFlushCall && fc < 0 {
 			fc = i
 		}
-		if e[0] == c20KFlushRetDone {
+		if e[0] == c20KFlushRetDone && fr < 0 {
 			fr = i
 		}
 	}
@@ -1404,6 +1448,9 @@ func init() {
 				m := c.Sc.Mode
 				if c.Sc.NoDump {
 					m += "-nodump"
+				}
+				if c.Sc.Callers >= 2 {
+					m += fmt.Sprintf("-callers%d", c.Sc.Callers)
 				}
 				if c.Sc.Mode == "lifecycle" {
 					m += "-" + c20LifeKinds[c.Sc.Life%len(c20LifeKinds)]
